@@ -180,6 +180,7 @@ type resolved struct {
 	g         *resolve.Graph
 	err       error
 	exhausted bool
+	extended  bool // the standard step budget did not suffice
 	calls     int64
 	fetched   []resolve.VersionKey
 	panicked  any
@@ -216,6 +217,15 @@ func run(c Case, w *world) (res resolved) {
 	tr := &tracer{Client: w.lc}
 	mk := func(cc resolve.Client) resolve.Resolver { w.sw.Client = cc; return w.res }
 	res.g, res.err, res.exhausted, res.calls = uni.Resolve(mk, tr, c.Universe.StepBudget(), c.rootKey())
+	if res.exhausted {
+		// Deep backtracking (dense cycles with extras) can need more than the
+		// standard budget and still terminate. Only a resolution that also
+		// outlasts a hundred times the budget is reported as exhausted;
+		// whether the resolver terminates at all is C04's question.
+		res.extended = true
+		tr.fetched = nil
+		res.g, res.err, res.exhausted, res.calls = uni.Resolve(mk, tr, 100*c.Universe.StepBudget(), c.rootKey())
+	}
 	res.fetched = tr.fetched
 	return res
 }
@@ -380,10 +390,9 @@ func check(c Case, res resolved, a *asker, dropped map[string]bool) (v verdict) 
 			perPkg[q.Name]++
 		}
 		for _, q := range rec.Reqs {
-			if perPkg[q.Name] > 1 || q.Name == rec.Name {
+			if perPkg[q.Name] > 1 {
 				// Outside the quantifier (stored cases only): several
-				// requirements of one version on one package, or a
-				// requirement of a package on itself.
+				// requirements of one version on one package.
 				feat("requirement-outside-quantifier")
 				for k, e := range out[i] {
 					if g.Nodes[e.To].Version.Name == q.Name {
@@ -445,6 +454,59 @@ func check(c Case, res resolved, a *asker, dropped map[string]bool) (v verdict) 
 		}
 	}
 
+	// Coverage: extras that reach a node only through a cycle (from itself or
+	// from one of its descendants, i.e. after it had to be pinned) and that
+	// switch on one of its requirements.
+	for i, nd := range g.Nodes {
+		if len(extras[i]) == 0 {
+			continue
+		}
+		reach := map[resolve.NodeID]int{} // descendant -> distance
+		frontier := []resolve.NodeID{resolve.NodeID(i)}
+		for d := 1; len(frontier) > 0; d++ {
+			var next []resolve.NodeID
+			for _, x := range frontier {
+				for _, e := range out[x] {
+					if _, ok := reach[e.To]; !ok && int(e.To) != i {
+						reach[e.To] = d
+						next = append(next, e.To)
+					}
+				}
+			}
+			frontier = next
+		}
+		outside := map[string]bool{}
+		depth := 0
+		for _, e := range in[i] {
+			d, desc := reach[e.From]
+			if int(e.From) == i {
+				d, desc = 0, true
+			}
+			if !desc {
+				splitExtras(e.Type, outside)
+				continue
+			}
+			m := map[string]bool{}
+			splitExtras(e.Type, m)
+			if len(m) > 0 && d+1 > depth {
+				depth = d + 1
+			}
+		}
+		if depth == 0 || extrasIndex(outside) == extrasIndex(extras[i]) {
+			continue
+		}
+		rec := u.Find(nd.Version.Name, nd.Version.Version)
+		if rec == nil {
+			continue
+		}
+		for _, q := range rec.Reqs {
+			if tt, ok := known[q.Environment]; ok && !dropped[q.Environment] && tt[extrasIndex(extras[i])] == '1' && tt[extrasIndex(outside)] == '0' {
+				feat(fmt.Sprintf("requirement-enabled-by-extra-from-cycle:length-%d", min(depth, 3)))
+				break
+			}
+		}
+	}
+
 	// Requirements the resolver has seen: those of every version whose
 	// requirements it fetched, selected or not. pip at the modelled release
 	// (resolvelib 0.7) never withdraws a requirement once merged into a
@@ -452,8 +514,15 @@ func check(c Case, res resolved, a *asker, dropped map[string]bool) (v verdict) 
 	// part in the choice of a version; the justification of a prerelease and
 	// the origin of an extra have to allow for them.
 	seenSpecs := map[string][]string{} // package -> specifiers of fetched versions' requirements on it
+	// Extras requested on a package by versions that were tried and are not
+	// part of the result (what a selected version requests is an in-edge or
+	// was never merged).
 	seenExtras := map[string]map[string]bool{}
 	fetchedOnce := map[resolve.VersionKey]bool{}
+	isSelected := map[resolve.VersionKey]bool{}
+	for _, nd := range g.Nodes {
+		isSelected[nd.Version] = true
+	}
 	for _, f := range res.fetched {
 		if fetchedOnce[f] {
 			continue
@@ -462,6 +531,9 @@ func check(c Case, res resolved, a *asker, dropped map[string]bool) (v verdict) 
 		if rec := u.Find(f.Name, f.Version); rec != nil {
 			for _, q := range rec.Reqs {
 				seenSpecs[q.Name] = append(seenSpecs[q.Name], q.Req)
+				if isSelected[f] {
+					continue
+				}
 				if seenExtras[q.Name] == nil {
 					seenExtras[q.Name] = map[string]bool{}
 				}
@@ -933,6 +1005,9 @@ func (rn *runner) batch(us []*uni.Universe, witness []Case) {
 		}
 		r.Count("resolutions", 1)
 		r.Count("client_calls", it.res.calls)
+		if it.res.extended {
+			r.Count("needed_extended_step_budget", 1)
+		}
 		if it.gen {
 			r.Count("generated:resolutions", 1)
 			if v.skipped == "" {
@@ -1026,13 +1101,13 @@ var selftest = [][2]string{
 
 func Run(r *ev.Run, replay string) {
 	r.MaxSamples = 6
-	r.Rule = "generated PyPI universes (4-7 packages a..g x 1-5 versions, finals M.m and pre/dev releases; every package has 1-3 target packages, mostly later in the alphabet, and each of its versions requires most of them with its own specifier, at most one requirement per (version, package), none on the package itself; specifiers of every PEP 440 operator incl. wildcards, compound clauses and literals naming pre/dev releases; markers from a table over python_version/python_full_version/sys_platform/os_name/extra whose truth value in the library's fixed environment is known by construction and confirmed by a start-up probe; extras x/y requested on a quarter of the requirements). Every version of every universe is resolved as root through uni.Resolve under the universe's step budget. For a graph without graph-level error: P1 node 0 is the root, one node per package, every node a version of the universe; P2 every requirement of a selected version whose marker is true (under the extras on the version's in-edges) has an out-edge labelled with its specifier to the selected version of its package; P3 every edge's target satisfies the edge's specifier for packaging (prereleases=True), and a pre/dev target other than the root is justified: a requirement on its package names a pre/dev release, or no final release of the universe satisfies all requirements on it; P4 no out-edge for a requirement whose marker is false; P5 every node reachable from node 0. Non-trivial = error-free resolution in which some selected version is lower than the highest version its own in-edge specifiers admit (the greedy highest-of-everything assignment is not the answer)."
+	r.Rule = "generated PyPI universes (4-7 packages a..g x 1-5 versions, finals M.m and pre/dev releases; every package has 1-3 target packages, mostly later in the alphabet, and each of its versions requires most of them with its own specifier, at most one requirement per (version, package); about half of the packages carry an idiom that asks an already pinned package for further extras through a cycle: a requirement of a version on its own package with extras under a marker on another extra, or a dependency that requires its dependent back with extras, plus a requirement that only those extras switch on; specifiers of every PEP 440 operator incl. wildcards, compound clauses and literals naming pre/dev releases; markers from a table over python_version/python_full_version/sys_platform/os_name/extra whose truth value in the library's fixed environment is known by construction and confirmed by a start-up probe; extras x/y requested on a quarter of the requirements). Every version of every universe is resolved as root through uni.Resolve under the universe's step budget. For a graph without graph-level error: P1 node 0 is the root, one node per package, every node a version of the universe; P2 every requirement of a selected version whose marker is true (under the extras on the version's in-edges) has an out-edge labelled with its specifier to the selected version of its package; P3 every edge's target satisfies the edge's specifier for packaging (prereleases=True), and a pre/dev target other than the root is justified: a requirement on its package names a pre/dev release, or no final release of the universe satisfies all requirements on it; P4 no out-edge for a requirement whose marker is false; P5 every node reachable from node 0. Non-trivial = error-free resolution in which some selected version is lower than the highest version its own in-edge specifiers admit (the greedy highest-of-everything assignment is not the answer)."
 	r.Assumptions = []string{
 		"pip's vendored packaging (SpecifierSet.contains, Version.is_prerelease, Version.release) is the reference for specifier satisfaction and for what a pre/dev release is; trusted after self-test",
 		"marker truth values are fixed by construction and confirmed against the library at start-up by resolving r -> p[extras] -> (marker) q; a template over environment variables that the library evaluates differently is dropped and listed (marker semantics are C16's business); the bare atoms extra == \"x\" / extra == \"y\" are never dropped, because handing the requested extras to the marker is the resolver's own job: their probe universes are judged like any other case",
 		"P3 states necessary conditions only. A specifier naming a pre/dev release with any operator counts as justification. The requirements considered for the justification are the in-edges plus the requirements of every version whose requirements the resolver fetched during the resolution: pip at the modelled release (resolvelib 0.7) never withdraws a requirement merged into a criterion, so the requirement of an abandoned candidate may legitimately take part in a choice (util/resolve/pypi/testdata drop-requirements pins that behaviour)",
-		"at most one requirement per (dependent version, package) and no requirement of a package on itself (the quantifier); stored cases that break this are not judged on P2/P4 for those requirements",
-		"resolutions that end in a Go error or a graph-level error are counted and skipped; one LocalClient and one resolver per universe, shared by the resolutions of all its roots (cross-resolution purity is C05's business); a violation is shrunk and re-judged with a fresh client and resolver before it is reported",
+		"at most one requirement per (dependent version, package) (the quantifier); stored cases that break this are not judged on P2/P4 for those requirements. A requirement of a version on its own package (the umbrella-extra idiom) is an ordinary requirement: its edge is a self-edge of the node and its extras count towards the node's requested extras, as in the unchanged resolver and in pip, where name[extra] depends on name",
+		"a resolution that exhausts the universe's step budget is repeated once under 100 times that budget and reported as C08:budget-exhausted only if it exhausts that too (counter needed_extended_step_budget); resolutions that end in a Go error or a graph-level error are counted and skipped; one LocalClient and one resolver per universe, shared by the resolutions of all its roots (cross-resolution purity is C05's business); a violation is shrunk and re-judged with a fresh client and resolver before it is reported",
 		"the statement does not speak about which of several consistent solutions is returned: preference for the highest version is only observed (feature:higher-admissible-final-never-tried), as are out-edges that stand for no requirement of the selected source version (feature:edge-without-requirement)",
 	}
 	if _, err := ref.Py.SelfTest(selftest); err != nil {
@@ -1128,6 +1203,8 @@ func Run(r *ev.Run, replay string) {
 	r.Gate("pct_nontrivial_of_error_free", 15)
 	r.GateNontrivial(int64(r.N(300, 30000)))
 	r.Gate("generated:error_free", int64(r.N(2000, 200000)))
+	r.Gate("feature:requirement-enabled-by-extra-from-cycle:length-1", int64(r.N(40, 4000)))
+	r.Gate("feature:requirement-enabled-by-extra-from-cycle:length-2", int64(r.N(40, 4000)))
 	for _, f := range []string{"extras-requested", "marker-plain-true", "marker-plain-false", "marker-extra-true", "marker-extra-false", "cycle-through-root", "prerelease-selected:named", "abandoned-candidate"} {
 		r.Gate("feature:"+f, int64(r.N(20, 2000)))
 	}
